@@ -28,9 +28,10 @@ struct DefPool {
 };
 static DefPool make_pool() {
   DefPool P;
-  // d0: ambiguous expression grammar by text
-  P.text.push_back("E : E '+' E # plus (0 2) | 'a' # 0 ;"); P.gram.push_back(Gram()); P.good.push_back(true);
-  P.inputs.push_back({{'a', '+', 'a'}, {'a', '+'}, {'a', 'z', 'a'}, {'a', '+', 'a', '+', 'a'}});
+  // d0: ambiguous expression grammar by text; `id' is declared without a code, so the description
+  // reader assigns it the first free code (256) - state of the reader that must not leak into later definitions
+  P.text.push_back("TERM id; E : E '+' E # plus (0 2) | 'a' # 0 | id # 0 ;"); P.gram.push_back(Gram()); P.good.push_back(true);
+  P.inputs.push_back({{'a', '+', 256}, {'a', '+'}, {'a', 'z', 'a'}, {256, '+', 'a', '+', 256}});
   // d1: other (sparse) codes, error rule, by callbacks
   {
     DescRes d = read_description("TERM x = 1000 y = 1001; S : S T # l (0 1) | T # 0 ; T : x y # t (0 1) | error y # e (1) ;");
@@ -39,7 +40,7 @@ static DefPool make_pool() {
     P.inputs.push_back({{1000, 1001, 1000, 1001}, {1000, 1000, 1001}, {1000, 5, 1001}, {1000, 1001}});
   }
   // d2: description with a syntax error
-  P.text.push_back("E : E '+' # ;;; ( "); P.gram.push_back(Gram()); P.good.push_back(false);
+  P.text.push_back("TERM q r; E : E '+' # ;;; ( "); P.gram.push_back(Gram()); P.good.push_back(false);
   P.inputs.push_back({{'a'}, {'a', 'a'}, {'z'}, {}});
   // d3: loop grammar by callbacks
   {
@@ -50,6 +51,17 @@ static DefPool make_pool() {
     P.text.push_back(""); P.gram.push_back(g); P.good.push_back(false);
     P.inputs.push_back({{'a'}, {'a', 'a'}, {'z'}, {}});
   }
+  // d4: fails while the terminals are declared (repeated code), by callbacks
+  {
+    Gram g; g.terms = {{"a", 'a'}, {"b", 'a'}}; g.nts = {"S"};
+    Rule r; r.lhs = 0; r.rhs = {0}; r.has_transl = true; r.transl = {0};
+    g.rules = {r};
+    P.text.push_back(""); P.gram.push_back(g); P.good.push_back(false);
+    P.inputs.push_back({{'a'}, {'a', 'a'}, {'z'}, {}});
+  }
+  // d5: fails while the rules are read (translation refers to a symbol the rule does not have), by text
+  P.text.push_back("TERM u; S : u # 3 ;"); P.gram.push_back(Gram()); P.good.push_back(false);
+  P.inputs.push_back({{256}, {256, 256}, {'z'}, {}});
   return P;
 }
 static DefPool POOL;
